@@ -64,6 +64,12 @@ def make_jobs(rng, table, n):
         for d in (rng.choice([300, 600, 760, 800]), rng.choice([760, 800]), rng.choice([2600, 3000])):
             deep.append(["e", "C(" * d + "F" + ")F" * d, {"strict": False}])
         deep.append(["d", "[S][Branch1][P]" * rng.choice([300, 700]) + "[C]", {}])
+    # refused strings: the symbol outside the grammar sits deep inside nested branches, or the nesting itself is too deep
+    # (RecursionError, known finding F5) - what such a call leaves behind must not reach the next call of the thread
+    for d in (rng.choice([60, 150]), rng.choice([300, 500])):
+        deep.append(["d", "[C][Branch1][C]" * d + "[Foo][C]", {"attribute": rng.random() < 0.3}])
+    if rng.random() < 0.5:
+        deep.append(["d", "[S][Branch1][P]" * rng.choice([2600, 3000]) + "[C]", {}])
     for i in range(n):
         x = rng.random()
         if x < 0.15:
@@ -245,7 +251,7 @@ def run(ctx):
             ctx.count("same_input_in_several_threads", len(hot) * nth)
             ctx.count("simultaneous_first_sight_calls", len(sync_jobs) * nth)
             # serial truth from a fresh child (cannot be contaminated by the concurrent run)
-            serial_all = z.run(table, jobs + sync_jobs)
+            serial_all = z.run(table, jobs + sync_jobs, isolate=True)      # one fresh child per job: alone means alone
             serial, serial_sync = serial_all[:len(jobs)], serial_all[len(jobs):]
             for i, j in enumerate(sync_jobs):
                 ctx.case((j[0], j[1], sorted(j[2].items())), True)
